@@ -243,6 +243,102 @@ def check_matrix(chk, rng, quick):
     return n
 
 
+def _diagram(o):
+    from pylife.strength.meanstress import HaighDiagram
+    d = DIAG[o]
+    if d[0] == 'g':
+        return HaighDiagram.fkm_goodman(pd.Series({'M': d[1], 'M2': d[2]}))
+    return HaighDiagram.five_segment(pd.Series(dict(zip(['M0', 'M1', 'M2', 'M3', 'M4', 'R12', 'R23'], d[1:]))))
+
+
+def _collective(x):
+    if x == 'unnamed3':
+        return pd.DataFrame({'range': [2.0, 4.0, 3.0], 'mean': [1.0, -1.0, 0.5]})
+    if x == 'named12':
+        return pd.DataFrame({'range': [2.0, 5.0], 'mean': [0.5, 2.0]}, index=pd.Index([1, 2], name='element_id'))
+    return pd.DataFrame({'range': [1.0, 6.0, 2.0], 'mean': [3.0, -2.0, 0.25]}, index=pd.Index([5, 6, 7], name='element_id'))
+
+
+def _matrix(o):
+    if o == 'rm':
+        r = pd.IntervalIndex.from_breaks([0.0, 2.0, 4.0, 6.0])
+        m = pd.IntervalIndex.from_breaks([-3.0, -1.0, 1.0, 3.0])
+        return pd.Series([float(1 + (3 * i) % 5) for i in range(9)], index=pd.MultiIndex.from_product([r, m], names=['range', 'mean']))
+    iv = pd.IntervalIndex.from_breaks([-4.0, -2.0, 0.0, 2.0, 4.0])
+    return pd.Series([float((7 * i) % 4) for i in range(16)], index=pd.MultiIndex.from_product([iv, iv], names=['from', 'to']))
+
+
+SENS = {'s0': {'M': 0.3, 'M2': 0.1}, 's1': {'M': 0.5, 'M2': 0.5}, 's2': {'M': 0.0, 'M2': 0.0}}
+
+
+def _same(a, b):
+    a, b = (x.to_pandas() if hasattr(x, 'to_pandas') else x for x in (a, b))
+    return a.shape == b.shape and a.index.equals(b.index) and close(a.to_numpy(dtype=np.float64), b.to_numpy(dtype=np.float64), 1e-12)
+
+
+def _nums(x):
+    x = x.to_pandas() if hasattr(x, 'to_pandas') else x
+    return np.asarray(x.to_numpy(dtype=np.float64)).tolist()
+
+
+def _replay_held(blocks):
+    import pylife.strength.meanstress  # noqa
+    n, nontriv, viol = 0, [], []
+    fresh = {}
+
+    def fresh_answer(kind, o, g, x):
+        if (kind, o, g, x) not in fresh:
+            fresh[(kind, o, g, x)] = (_diagram(o).transform(_collective(x), GOAL[g]) if kind == 'haigh'
+                                      else _matrix(o).meanstress_transform.fkm_goodman(pd.Series(SENS[x]), GOAL[g]))
+        return fresh[(kind, o, g, x)]
+
+    with warnings.catch_warnings():
+        warnings.simplefilter('ignore')
+        for b in blocks:
+            st = parse_state(b.strip())
+            hist = [tuple(c) for c in st['hist']]
+            if len(hist) < 2:
+                continue
+            n += 1
+            kind, o = st['kind'], st['obj']
+            case = {'object': kind, 'built_from': o, 'calls_R_goal_argument': [list(c) for c in hist]}
+            try:
+                held = _diagram(o) if kind == 'haigh' else _matrix(o).meanstress_transform
+                for k, (g, x) in enumerate(hist):
+                    got = held.transform(_collective(x), GOAL[g]) if kind == 'haigh' else held.fkm_goodman(pd.Series(SENS[x]), GOAL[g])
+                    want = fresh_answer(kind, o, g, x)
+                    if not _same(got, want):
+                        viol.append(('call %d on a kept %s answers differently from a fresh object (state carried between calls)' % (k + 1, 'HaighDiagram object' if kind == 'haigh' else 'matrix accessor'),
+                                     case, _nums(want), _nums(got)))
+                        break
+                if len(set(hist)) > 1:
+                    nontriv.append(('held', kind, o, tuple(hist)))
+            except Exception as ex:
+                viol.append(('call history on a kept object raised %r' % ex, case, None, None))
+    return n, nontriv, viol[:4]
+
+
+def check_held(chk):
+    """Histories of calls on KEPT objects (HeldCalls.tla): the k-th answer equals the answer of a fresh object to the same call."""
+    res = tlc.run(os.path.join(SPEC, 'meanstress', 'MC_HeldCalls.tla'), os.path.join(SPEC, 'meanstress', 'MC_HeldCalls.cfg'), dump=True, timeout=600)
+    chk.tlc('MC_HeldCalls.cfg', res, 'call histories on a kept HaighDiagram object / a kept matrix accessor: no call changes the object')
+    if res.violated:
+        chk.machinery.append('model invariant %s violated: %s' % (res.violated, res.trace[-1:]))
+    if not (res.dump_path and os.path.exists(res.dump_path)):
+        return 0
+    tot = 0
+    for n, nontriv, viol in par.pmap(_replay_held, par.split_dump(res.dump_path, 32), chunksize=1):
+        tot += n
+        for x in nontriv:
+            chk.nontrivial(x)
+        for what, case, exp, got in viol:
+            chk.violation(what, case, exp, got, part='held')
+    os.remove(res.dump_path)
+    chk.evals(tot)
+    chk.part('held', histories=tot)
+    return tot
+
+
 def run(chk):
     quick = chk.tier == 'quick'
     cfgname = 'MC_Haigh_quick.cfg' if quick else 'MC_Haigh_thorough.cfg'
@@ -291,10 +387,11 @@ def run(chk):
         os.remove(res.dump_path)
     rng = random.Random(chk.seed + 12)
     chk.cov['traces_validated_against_impl'] += check_matrix(chk, rng, quick)
+    chk.cov['traces_validated_against_impl'] += check_held(chk)
     chk.cov['rule'] = ('TLC enumerates cycles (integer amplitude x mean incl. R = -inf, R = 0, R > 1) x Haigh diagrams (FKM-Goodman incl. M = M2, M = 0; five-segment incl. M4 != 0) x 10 target R '
                        '(incl. -inf and R > 1), restricted to paths whose exact amplitude stays positive, and proves: walk as coded = iso-damage line, fixed point, idempotence, path independence, monotone. '
                        'Every state is evaluated by the plain functions (single and multi-row), the range/mean and from/to collective accessors; two-step paths on a seeded sample; '
-                       'the matrix interface on integer-edge matrices whose ranges hit class borders (exact class placement from MC_Rebin) and on random from/to matrices (totals). '
+                       'the matrix interface on integer-edge matrices whose ranges hit class borders (exact class placement from MC_Rebin) and on random from/to matrices (totals); call histories (MC_HeldCalls, up to 3 calls) on a kept HaighDiagram object and a kept matrix accessor against fresh objects. '
                        'Non-trivial = non-zero mean and target other than R = -1.')
     chk.cov['exhaustive'] = True
     chk.assumptions += ['rational lattice of cycles / sensitivities; comparisons at rel 1e-9']
